@@ -233,6 +233,11 @@ def _check_wide(c, f, dtype, sign, man, exp):
         with np.errstate(all="ignore"):
             mw = utils.mpf2multiword(dtype, m)
         bc = man.bit_length()
+        if mw and all(np.isfinite(e) for e in mw):
+            # documented for every x: x == sum(result) + O(smallest subnormal); here with a generous constant
+            tot = sum((flt.float2frac(e) for e in mw), Fraction(0))
+            if abs(tot - exact) > 4 * f.smallest_subnormal:
+                out.append(("wide/multiword/far-from-value", "mpf2multiword(%s, man=%d exp=%d)=%r is %.3g away from x (documented: O(smallest subnormal))" % (f.name, man, exp, mw, float(abs(tot - exact)))))
         if mw and bc <= f.p * len(mw):  # documented exactness condition
             tot = sum((flt.float2frac(e) for e in mw), Fraction(0))
             if tot != exact:
